@@ -253,6 +253,15 @@ def run_property(prop, tier="quick", seed=0, unit_filter=None, nproc=None, extra
         if status == 0 and "/frame:" in ob["name"]:
             undecided.append(dict(name=ob["name"], reason="frame condition fails (the call writes state that outlives it) but no observable interference between commands was found; not reported as a violation"))
             continue
+        if status == 0 and redirect is None:
+            # the representative instance does not reproduce: other instances of the same obligation may (e.g. when the
+            # code under test keeps state between calls and the symbolic run of one case saw what another left behind)
+            for o2, r2 in [(o, r) for o, r in items if o is not ob and o.get("inputs") is not None][:3]:
+                path2 = write_replay(prop, o2, r2, extra=extra)
+                st2, out2 = run_replay(path2, timeout=30)
+                if st2 == 1:
+                    ob, res, path, status, out = o2, r2, path2, st2, out2
+                    break
         if status == 0:
             errors.append("CHECKER-ERROR: counterexample for %s does not reproduce natively (engine or contract bug): %s" % (ob["name"], out[-800:]))
             continue
@@ -284,8 +293,13 @@ def run_property(prop, tier="quick", seed=0, unit_filter=None, nproc=None, extra
     if obligations == 0:
         errors.append("zero obligations generated (vacuous run)")
         print("CHECKER-ERROR property=%s zero obligations" % prop)
-    if errors:
+    if errors and exit_code != 1:
         exit_code = 3
+    elif errors:
+        # a violation that was replayed on the real code stands whatever else went wrong in the run; the checker
+        # errors are still printed (typical cause: the code under test now keeps state between calls, so that some
+        # counter-models depend on what an earlier case left behind in the worker and do not replay in a fresh process)
+        notes.append("checker errors besides confirmed violations: %d" % len(errors))
     elif undecided and exit_code == 0:
         exit_code = 2
     n_known = sum(1 for r in reported if r["known"])
